@@ -1,6 +1,6 @@
 import RemocModel.Link.CloseInv
 import RemocModel.Link.Relay
-import RemocModel.Link.ForwardReach
+import RemocModel.Link.ForwardClose2
 import RemocModel.Props.C01
 set_option linter.unusedSimpArgs false
 
@@ -258,6 +258,78 @@ theorem forward_cancelled_never_completed (v : Pairing) (ca cb : Cfg) (f f' : Fw
         exact ⟨hcomp, hem, fun _ => him, rfl⟩
     · simp at hs
 
+/-- **End-of-stream across the forwarder.**
+(1) `forward` returns `Ok` only when the upstream port reported end-of-stream, and then it has consumed every
+    frame the origin emitted and completed downstream exactly the sends completed at the origin;
+(2) the destination is told end-of-stream only after `forward` returned (its caller then drops the downstream
+    sender: `SendFinish` travels behind everything that was relayed), and then it has obtained every message the
+    forwarder completed;
+(3) hence after an `Ok` return: exactly the origin's completed sends.
+After an error return (`ForwardError`) the destination still sees a clean end-of-stream once the forwarding task
+drops its sender: (2) holds, (3) does not — see `fwdLostRun` below. -/
+theorem forward_eos_after_all (v : Pairing) (ca cb : Cfg) (f : Fwd) (h : FReachable v ca cb f) :
+    (f.ph = .done .ok → f.a.consumed = f.a.emitted ∧ f.b.completed = f.a.completed) ∧
+    ((Out.eos ∈ f.b.outs ∨ f.b.r.finished = true) →
+      f.ph.isDone = true ∧ f.b.delivered ++ pendingMsg f.b = f.b.completed) ∧
+    ((Out.eos ∈ f.b.outs ∨ f.b.r.finished = true) → f.ph = .done .ok →
+      f.b.delivered ++ pendingMsg f.b = f.a.completed) := by
+  obtain ⟨⟨_, _, hrel⟩, ha, hb⟩ := fjoint_reachable v ca cb f h
+  have hcl := fclose_reachable v ca cb f h
+  have part1 : f.ph = .done .ok → f.a.consumed = f.a.emitted ∧ f.b.completed = f.a.completed := by
+    intro hph
+    have heos := hcl.okEos hph
+    rw [hph] at hrel
+    obtain ⟨hp, hc⟩ := hrel
+    obtain ⟨h1, h2⟩ := eos_after_all_data ca f.a ha (Or.inl heos)
+    have pend0 : pendingMsg f.a = [] := by unfold pendingMsg; rw [hp]; split <;> simp_all
+    rw [pend0, List.append_nil] at h2
+    exact ⟨h1, by rw [hc, h2]⟩
+  have part2 : (Out.eos ∈ f.b.outs ∨ f.b.r.finished = true) →
+      f.ph.isDone = true ∧ f.b.delivered ++ pendingMsg f.b = f.b.completed := by
+    intro he
+    obtain ⟨h1, h2⟩ := eos_after_all_data cb f.b hb he
+    have fi := finv_reachable cb f.b hb
+    have hfin : Frame.finish ∈ f.b.emitted := by rw [← h1]; exact fi.eos he
+    exact ⟨hcl.dropped (fi.mem hfin), h2⟩
+  exact ⟨part1, part2, fun he hph => by rw [(part2 he).2, (part1 hph).2]⟩
+
+/-- **Close in each direction, classified.**
+(1) the forwarder closes its upstream receiver (`ReceiverClosed` to the origin) only after its downstream sender
+    was told that the destination closed or dropped its receiver;
+(2) `Ok` only at upstream end-of-stream;
+(3) `ForwardError::Send` only if the downstream connection was lost or the downstream receiver closed in a way the
+    sender does not override — with the graceful-close override `forward` sets: only if it was *dropped*
+    (`ReceiveFinish`), never because of a graceful `close()`;
+(4) `ForwardError::Recv` only if the upstream connection was lost or a port batch exceeded `max_ports`. -/
+theorem forward_close_classified (v : Pairing) (ca cb : Cfg) (f : Fwd) (h : FReachable v ca cb f) :
+    (f.a.r.closed = true → f.b.s.closed.isSome = true) ∧
+    (f.ph = .done .ok → Out.eos ∈ f.a.outs) ∧
+    (f.ph = .done .errSend → f.lostDown = true ∨ ∃ g, f.b.s.closed = some g ∧ (cb.ovr = true → g = false)) ∧
+    (f.ph = .done .errRecv → f.lostUp = true ∨ Out.tooManyPorts ∈ f.a.outs) := by
+  have hcl := fclose_reachable v ca cb f h
+  exact ⟨fun hc => hcl.seen (hcl.closeUp hc), hcl.okEos, hcl.errSend, hcl.errRecv⟩
+
+/-- **The close reaches the origin.**  Between two messages, once the downstream sender knows that its receiver
+was closed or dropped, the `Event::Closed` branch is enabled (unless it ran before); after it the upstream
+receiver is closed — `ReceiverClosed` is on its way to the origin — or had been dropped already
+(`ReceiverDropped` is), and the loop goes on relaying what the origin had sent. -/
+theorem forward_close_propagates (v : Pairing) (ca cb : Cfg) (f : Fwd) (hph : f.ph = .idle)
+    (hseen : f.closedSeen = false) (hcl : f.b.s.closed.isSome = true) :
+    ∃ f', fstep v ca cb f .closedEvt = some f' ∧ f'.closedSeen = true ∧ f'.ph = .idle ∧ f'.b = f.b ∧
+      (f'.a.r.closed = true ∨ f'.a.r.dropped = true) := by
+  refine ⟨{ f with a := (step ca f.a .close).getD f.a, closedSeen := true },
+    by simp only [fstep, hph]; rw [if_pos ⟨hseen, hcl⟩], rfl, hph, rfl, ?_⟩
+  show ((step ca f.a .close).getD f.a).r.closed = true ∨ ((step ca f.a .close).getD f.a).r.dropped = true
+  cases hs : step ca f.a .close with
+  | some a' => left; simpa [hs] using (close_spec ca f.a a' hs).2.2.2
+  | none =>
+    simp only [hs, Option.getD_none]
+    simp only [step] at hs
+    split at hs
+    · simp at hs
+    · rename_i hn
+      cases hc : f.a.r.closed <;> cases hd : f.a.r.dropped <;> simp_all
+
 /-- non-vacuity: a chunk stream of 7 bytes (above the forwarder's `max_data_size` 5, so relayed chunk by chunk)
 is cancelled at the origin after both chunks were relayed; the next message is relayed whole; then a 7-byte
 chunk stream is relayed to its end.  Downstream 7 + 0 frames were emitted for the two streams, and exactly the
@@ -289,5 +361,42 @@ example : (frun .asCoded fwdA fwdB (finit fwdA fwdB) fwdChunkRun).b.completed = 
     (frun .asCoded fwdA fwdB (finit fwdA fwdB) fwdChunkRun).a.completed = [[9], [1,2,3,4,5,6,7]] ∧
     (frun .asCoded fwdA fwdB (finit fwdA fwdB) fwdChunkRun).b.delivered = [[9], [1,2,3,4,5,6,7]] ∧
     (frun .asCoded fwdA fwdB (finit fwdA fwdB) fwdChunkRun).ph = .idle := by decide
+
+/-- the origin sends one message and drops its sender; the forwarder relays it, sees end-of-stream, returns `Ok`,
+its caller drops both ports; the destination obtains the message and then end-of-stream -/
+def fwdEosRun : List FLabel :=
+  [.up (.startSend [9]), .up .request, .up .emit, .up .dropSender, .up .muxRecv, .up .muxRecv,
+   .recvAny, .down .request, .emit, .recvAny, .dropTx, .dropRx,
+   .down .muxRecv, .down .muxRecv, .down .recvAny, .down .recvAny]
+example : (frun .asCoded fwdA fwdB (finit fwdA fwdB) fwdEosRun).ph = .done .ok ∧
+    (frun .asCoded fwdA fwdB (finit fwdA fwdB) fwdEosRun).b.delivered = [[9]] ∧
+    Out.eos ∈ (frun .asCoded fwdA fwdB (finit fwdA fwdB) fwdEosRun).b.outs := by decide
+
+/-- the destination closes gracefully while a message is on its way to the forwarder: the forwarder closes its
+upstream receiver, the origin's sender learns of it (`closed = some true`), and — graceful-close override — the
+message is still relayed and obtained by the destination -/
+def fwdCloseRun : List FLabel :=
+  [.up (.startSend [9]), .up .request, .up .emit, .up .muxRecv,
+   .down .close, .down .provide, .closedEvt,
+   .recvAny, .down .request, .emit, .up .provide,
+   .down .muxRecv, .down .recvAny]
+example : (frun .asCoded fwdA fwdB (finit fwdA fwdB) fwdCloseRun).b.s.closed = some true ∧
+    (frun .asCoded fwdA fwdB (finit fwdA fwdB) fwdCloseRun).a.r.closed = true ∧
+    (frun .asCoded fwdA fwdB (finit fwdA fwdB) fwdCloseRun).a.s.closed = some true ∧
+    (frun .asCoded fwdA fwdB (finit fwdA fwdB) fwdCloseRun).b.delivered = [[9]] ∧
+    (frun .asCoded fwdA fwdB (finit fwdA fwdB) fwdCloseRun).ph = .idle := by decide
+
+/-- the upstream connection is lost while a chunked message is relayed: `forward` returns `ForwardError::Recv`,
+the `ChunkSender` is dropped, nothing is completed; when the forwarding task then drops its sender the
+destination sees a *clean* end-of-stream after a discarded partial message (what FB3 reports for bin channels) -/
+def fwdLostRun : List FLabel :=
+  [.up .startChunks, .up (.chunkSend [1,2,3,4,5,6,7] false), .up .request, .up .emit, .up .emit,
+   .up .muxRecv, .up .muxRecv, .recvAny, .recvAny, .recvChunk, .down .request, .emit,
+   .upLost, .dropTx, .down .muxRecv, .down .muxRecv, .down .recvAny, .down .recvAny]
+example : (frun .asCoded fwdA fwdB (finit fwdA fwdB) fwdLostRun).ph = .done .errRecv ∧
+    (frun .asCoded fwdA fwdB (finit fwdA fwdB) fwdLostRun).b.completed = [] ∧
+    (frun .asCoded fwdA fwdB (finit fwdA fwdB) fwdLostRun).b.delivered = [] ∧
+    (frun .asCoded fwdA fwdB (finit fwdA fwdB) fwdLostRun).b.emitted.length = 2 ∧
+    Out.eos ∈ (frun .asCoded fwdA fwdB (finit fwdA fwdB) fwdLostRun).b.outs := by decide
 
 end Remoc.Link
